@@ -312,24 +312,37 @@ func extPow(in *Interp, fn *ssa.Function, a []Value) Value {
 	}
 	c := func(f float64) *term.Term { return term.FloatC(term.F64, f) }
 	if in.job.Mode == "real" {
-		if y.IsConst() {
-			switch y.F {
-			case 0:
-				return c(1)
-			case 1:
-				return x
-			case 2:
-				return term.Fmul(x, x)
-			case 3:
-				return term.Fmul(term.Fmul(x, x), x)
-			case -1:
-				return term.Fdiv(c(1), x)
-			case 0.5:
-				return term.Fsqrt(x)
+		if y.IsConst() && y.F*2 == math.Floor(y.F*2) && math.Abs(y.F) <= 8 {
+			// integer and half-integer exponents: products of x and sqrt(x)
+			k := int(math.Floor(math.Abs(y.F)))
+			half := math.Abs(y.F) != float64(k)
+			r := c(1)
+			for i := 0; i < k; i++ {
+				r = term.Fmul(r, x)
 			}
+			if half {
+				r = term.Fmul(r, term.Fsqrt(x))
+			}
+			if y.F < 0 {
+				r = term.Fdiv(c(1), r)
+			}
+			return r
 		}
 		in.facts[u.ID] = append(in.facts[u.ID], term.True)
 		return u
+	}
+	if y.IsConst() && (y.F == 0.5 || y.F == -0.5) {
+		// Go's math.Pow returns Sqrt(x) resp. 1/Sqrt(x) for these exponents
+		// (after its special cases, of which x = -Inf differs from Sqrt)
+		r := term.Fsqrt(x)
+		if y.F < 0 {
+			r = term.Fdiv(c(1), r)
+			return term.Ite(term.FisInf(x, -1), c(0), r)
+		}
+		return term.Ite(term.FisInf(x, -1), c(math.Inf(1)), r)
+	}
+	if y.IsConst() && y.F == 2 {
+		// not exact in general (Pow(x,2) is computed by its own algorithm), keep uninterpreted
 	}
 	y0 := term.Feq(y, c(0))
 	x1 := term.Feq(x, c(1))
